@@ -161,6 +161,28 @@ func (e *Enc) envForCall(callee *ssa.Function, args []Val, results []*Term, st *
 			env.vars[p.Name()] = SV{t: args[i].t(), typ: p.Type(), addr: args[i].Addr}
 		}
 	}
+	if ta := callee.TypeArgs(); len(ta) > 0 {
+		if o := callee.Origin(); o != nil {
+			var tps *types.TypeParamList
+			if o.Signature.Recv() != nil {
+				rt := o.Signature.Recv().Type()
+				if p, ok := rt.(*types.Pointer); ok {
+					rt = p.Elem()
+				}
+				if n, ok := rt.(*types.Named); ok {
+					tps = n.TypeParams()
+				}
+			} else {
+				tps = o.Signature.TypeParams()
+			}
+			if tps != nil {
+				env.typeVars = map[string]types.Type{}
+				for i := 0; i < tps.Len() && i < len(ta); i++ {
+					env.typeVars[tps.At(i).Obj().Name()] = ta[i]
+				}
+			}
+		}
+	}
 	if e.envAlias != nil && callee == e.top {
 		e.envAlias(env, args)
 	}
@@ -267,6 +289,13 @@ func (e *Enc) havocAssigns(fr *Frame, con *FuncContract, env *evalEnv, st *State
 			}
 			continue
 		}
+		if sv.greg != nil {
+			_, es := arrayElemSort(sv.greg.sort)
+			nv := tb.Fresh("hv_ghost_"+why, es)
+			e.setReg(st, sv.greg, tb.Store(e.reg(st, sv.greg), sv.gidx, nv))
+			e.assumeWF(tb.True(), sv.greg.typ, nv)
+			continue
+		}
 		if sv.addr == nil {
 			e.contractError(fr, "assigns", fmt.Errorf("`%s` does not denote a location", cl.text))
 			e.havocAll(st, why)
@@ -298,6 +327,9 @@ func (e *Enc) anyReg(env *evalEnv, text string) (r *regInfo, err error) {
 	if strings.HasPrefix(text, "[]") {
 		return e.elemReg(env.typeFromText(text[2:])), nil
 	}
+	if strings.HasPrefix(text, "*") {
+		return e.ptrReg(env.typeFromText(text[1:])), nil
+	}
 	i := strings.LastIndex(text, ".")
 	if i < 0 {
 		return nil, fmt.Errorf("`any %s`: expected T.f or []T", text)
@@ -317,15 +349,6 @@ func (e *Enc) anyReg(env *evalEnv, text string) (r *regInfo, err error) {
 }
 
 func (e *Enc) assignRegs(callee *ssa.Function, cl clause, ws *writeSet) bool {
-	if cl.kind == "assigns-any" {
-		env := &evalEnv{e: e, vars: map[string]SV{}, bound: map[string]SV{}, pkg: e.L.typesPkg(funcPkgPath(callee))}
-		r, err := e.anyReg(env, cl.text)
-		if err != nil {
-			return false
-		}
-		ws.regs[r.name] = true
-		return true
-	}
 	// evaluate the location with symbolic placeholder arguments just to learn its register
 	st := State{reach: e.tb.True(), heap: map[string]*Term{}}
 	var args []Val
@@ -333,11 +356,28 @@ func (e *Enc) assignRegs(callee *ssa.Function, cl clause, ws *writeSet) bool {
 		args = append(args, Val{T: []*Term{e.tb.Const("ws_"+p.Name()+"_"+e.sortOf(p.Type()), e.sortOf(p.Type()))}})
 	}
 	env := e.envForCall(callee, args, nil, &st, &st)
+	return e.clauseRegs(env, cl, ws)
+}
+
+// clauseRegs adds the registers an assigns location (evaluated in env) can touch.
+func (e *Enc) clauseRegs(env *evalEnv, cl clause, ws *writeSet) bool {
+	if cl.kind == "assigns-any" {
+		r, err := e.anyReg(env, cl.text)
+		if err != nil {
+			return false
+		}
+		ws.regs[r.name] = true
+		return true
+	}
 	sv, err := env.evalAny(cl.expr)
 	if err == nil && sv.wlog {
 		for _, n := range []string{"W:len", "W:kind", "W:int", "W:str"} {
 			ws.regs[e.wReg(n).name] = true
 		}
+		return true
+	}
+	if err == nil && sv.greg != nil {
+		ws.regs[sv.greg.name] = true
 		return true
 	}
 	if err != nil || sv.addr == nil {
@@ -363,6 +403,27 @@ func (e *Enc) assignRegs(callee *ssa.Function, cl clause, ws *writeSet) bool {
 	return true
 }
 
+// typeContractRegs: the registers a call through a function / interface value under contract can touch.
+func (e *Enc) typeContractRegs(tc *FuncContract, sig *types.Signature, ftype types.Type, recvIface bool, ws *writeSet) bool {
+	st := State{reach: e.tb.True(), heap: map[string]*Term{}}
+	var args []Val
+	for i := 0; i < sig.Params().Len(); i++ {
+		t := sig.Params().At(i).Type()
+		args = append(args, Val{T: []*Term{e.tb.Const(fmt.Sprintf("wsd_%d_%s", i, sanitize(e.sortOf(t))), e.sortOf(t))}})
+	}
+	f := Val{T: []*Term{e.tb.Const("wsd_self_"+sanitize(e.sortOf(ftype)), e.sortOf(ftype))}}
+	env := e.typeContractEnv(tc, sig, f, ftype, args, nil, &st, &st)
+	if recvIface {
+		env.vars["self"] = SV{t: f.t(), typ: ftype}
+	}
+	for _, cl := range tc.assigns {
+		if !e.clauseRegs(env, cl, ws) {
+			return false
+		}
+	}
+	return true
+}
+
 func (e *Enc) contractError(fr *Frame, what string, err error) {
 	// a contract that cannot be evaluated is a failing obligation, never silently skipped
 	st := State{reach: e.tb.True(), heap: map[string]*Term{}}
@@ -377,6 +438,29 @@ func (e *Enc) dynamicCall(fr *Frame, x *ssa.Call, st *State, args []Val) {
 	f := e.val(fr, c.Value)
 	if tc := e.L.typeContract(c.Value.Type()); tc != nil {
 		e.applyTypeContract(fr, x, tc, f, args, st)
+		return
+	}
+	if name, ok := e.pureCallee(fr, c.Value); ok {
+		// a pure function value: the result is a function of the value and the arguments, nothing is assigned
+		tb := e.tb
+		var sorts []string
+		ts := []*Term{f.t()}
+		sorts = append(sorts, "Fn")
+		for _, a := range args {
+			sorts = append(sorts, a.t().sort)
+			ts = append(ts, a.t())
+		}
+		var res []*Term
+		for i, rt := range e.tupleTypes(x.Type()) {
+			r := tb.Func(fmt.Sprintf("pureapp%d_%s_%s", i, sanitize(strings.Join(sorts, "_")), sanitize(e.sortOf(rt))), sorts, e.sortOf(rt), ts...)
+			e.assumeWF(tb.True(), rt, r)
+			res = append(res, r)
+		}
+		if len(res) == 0 {
+			res = []*Term{tb.True()}
+		}
+		fr.vals[x] = Val{T: res}
+		e.modelled("function value `" + name + "` declared pure by the contract: deterministic, assigns nothing")
 		return
 	}
 	e.safetyObl(fr, st, "nilfunc", x.Pos(), isCallExpr, e.tb.Not(e.tb.Eq(f.t(), e.tb.Const("nilFn", "Fn"))))
@@ -829,6 +913,144 @@ func (e *Enc) makeClosure(fr *Frame, x *ssa.MakeClosure, st *State) {
 	if e.closureHook != nil {
 		e.closureHook(fr, x, c, st)
 	}
+	e.closureAtCreation(fr, x, c, st)
+}
+
+// closureAtCreation: a function literal with a `closure-spec` in the contract of the enclosing unit receives its ghost
+// attributes and is verified, where it is created, against the type contract it is declared to satisfy. The body runs
+// from an arbitrary later heap in which the variables it captured still hold their values at creation.
+func (e *Enc) closureAtCreation(fr *Frame, x *ssa.MakeClosure, c *Term, st *State) {
+	con := fr.con
+	if con == nil || len(con.closureSpecs) == 0 || fr.parent != nil {
+		return
+	}
+	fn := x.Fn.(*ssa.Function)
+	var spec *closureSpec
+	for i := range con.closureSpecs {
+		s := &con.closureSpecs[i]
+		if strings.HasPrefix(s.anchor, "$bound:") {
+			if fn.Synthetic != "" && strings.HasSuffix(fn.Name(), "$bound") && strings.TrimSuffix(fn.Name(), "$bound") == strings.TrimPrefix(s.anchor, "$bound:") {
+				spec = s
+			}
+			continue
+		}
+		if fn.Syntax() != nil && e.L.anchorMatches(fn, s.anchor) {
+			spec = s
+		}
+	}
+	if spec == nil {
+		return
+	}
+	tb := e.tb
+	// the type contract
+	pkg := e.L.typesPkg(con.pkg)
+	var tc *FuncContract
+	var ftype types.Type
+	if obj := pkg.Scope().Lookup(spec.typeName); obj != nil {
+		if tn, ok := obj.(*types.TypeName); ok {
+			ftype = tn.Type()
+			tc = e.L.contracts.types[con.pkg+"::"+spec.typeName]
+		}
+	}
+	label := spec.anchor
+	if tc == nil {
+		e.contractError(fr, "closure-spec:"+label, fmt.Errorf("no type-contract %s", spec.typeName))
+		return
+	}
+	// instantiate a generic type with the type arguments of the enclosing function's receiver / instantiation
+	if n, ok := ftype.(*types.Named); ok && n.TypeParams().Len() > 0 {
+		if ta := fr.fn.TypeArgs(); len(ta) == n.TypeParams().Len() {
+			if inst, err := types.Instantiate(nil, n, ta, false); err == nil {
+				ftype = inst
+			}
+		}
+	}
+	// ghost attributes: definitions for the new function value
+	aenv := e.envAt(fr, st, nil)
+	aenv.self = SV{t: c, typ: ftype}
+	for _, at := range spec.attrs {
+		tv, err1 := aenv.evalAny(at.target)
+		vv, err2 := aenv.evalAny(at.value)
+		if err1 != nil || err2 != nil {
+			e.contractError(fr, "closure-spec:"+label, fmt.Errorf("attr %s: %v %v", at.text, err1, err2))
+			continue
+		}
+		if vv.untyped && vv.t.sort != tv.t.sort {
+			vv = aenv.convertUntyped(vv, tv.typ)
+		}
+		e.assume(st.reach, tb.Eq(tv.t, vv.t))
+	}
+	// entry state of a later invocation: everything unknown except the captured variables
+	entry := st.clone()
+	var keep []*allocInfo
+	for _, b := range x.Bindings {
+		bt := e.val(fr, b).t()
+		for _, a := range e.allocs {
+			if a.ref == bt {
+				keep = append(keep, a)
+			}
+		}
+	}
+	before := entry.clone()
+	entry.heap = map[string]*Term{}
+	entry.ep = e.newEpoch()
+	for _, a := range keep {
+		for _, r := range e.allocRegs(a) {
+			e.setReg(&entry, r, tb.Store(e.reg(&entry, r), a.ref, tb.Select(e.reg(&before, r), a.ref)))
+		}
+	}
+	guard := tb.Fresh("invoked_"+fn.Name(), "Bool")
+	entry.reach = tb.And(st.reach, guard)
+	sig := fn.Signature
+	var args []Val
+	for _, p := range fn.Params {
+		a := e.fresh("cp_"+p.Name(), p.Type())
+		args = append(args, Val{T: []*Term{a}})
+	}
+	var binds []Val
+	for _, b := range x.Bindings {
+		binds = append(binds, e.val(fr, b))
+	}
+	pre := entry.clone()
+	fv := Val{T: []*Term{c}}
+	renv := e.typeContractEnv(tc, sig, fv, ftype, args, nil, &entry, &pre)
+	for _, cl := range tc.requires {
+		t, err := renv.evalBool(cl.expr)
+		if err != nil {
+			e.contractError(fr, "closure-spec:"+label, err)
+			continue
+		}
+		e.assume(entry.reach, t)
+	}
+	for _, cl := range spec.assumes {
+		// evaluated over the captured variables in the state of the later invocation
+		cenv := e.envAt(fr, &entry, nil)
+		t, err := cenv.evalBool(cl.expr)
+		if err != nil {
+			e.contractError(fr, "closure-spec:"+label, err)
+			continue
+		}
+		e.assume(entry.reach, t)
+		e.modelled("closure-spec assumption (state captured by a function literal is not modified before it is invoked): " + cl.text)
+	}
+	savedCtx, savedStack := e.ctx, e.stack
+	res, out, sub := e.encodeFunc(fn, args, binds, entry, fr, nil, nil)
+	e.ctx, e.stack = savedCtx, savedStack
+	_ = sub
+	if len(res) == 0 {
+		return
+	}
+	penv := e.typeContractEnv(tc, sig, fv, ftype, args, res, &out, &pre)
+	for k, cl := range tc.ensures {
+		t, err := penv.evalBool(cl.expr)
+		if err != nil {
+			e.contractError(fr, "closure-spec:"+label, err)
+			continue
+		}
+		q := e.oblige("closure", fmt.Sprintf("%s.%s.%s", label, tc.key, clauseLabel("ensures", k, cl)), &out, t, x.Pos(), e.inputVals()...)
+		q.Text = cl.text
+	}
+	e.modelled("function literals are verified at their creation site; captured variables keep the value they had when the literal was created")
 }
 
 // ---------- environments for clauses inside a function ----------
@@ -947,4 +1169,30 @@ func typeVarsOf(t types.Type) map[string]types.Type {
 		m[tp.At(i).Obj().Name()] = n.TypeArgs().At(i)
 	}
 	return m
+}
+
+// pureCallee: the called function value is a parameter or captured variable declared `pure` in the contract of the unit.
+func (e *Enc) pureCallee(fr *Frame, v ssa.Value) (string, bool) {
+	con := e.topCon()
+	if fr.con != nil {
+		con = fr.con
+	}
+	if con == nil || len(con.pureParams) == 0 {
+		return "", false
+	}
+	switch x := v.(type) {
+	case *ssa.Parameter:
+		if con.pureParams[x.Name()] && x.Parent() == fr.fn && fr.parent == nil {
+			return x.Name(), true
+		}
+	case *ssa.UnOp:
+		if fv, ok := x.X.(*ssa.FreeVar); ok && con.pureParams[fv.Name()] {
+			return fv.Name(), true
+		}
+	case *ssa.FreeVar:
+		if con.pureParams[x.Name()] {
+			return x.Name(), true
+		}
+	}
+	return "", false
 }
